@@ -1620,12 +1620,84 @@ def sweep_case(index):
     return ops, cfg
 
 
+# Second catalogue: histories with TWO edits and a warm-up before each (the bounded-length part of the quantifier,
+# one step deeper: re-add after remove, modify after re-add, an explicit `kfoo` added and removed again, an edit
+# whose invalidation is undone or masked by the next one).  Indices SWEEP_TOTAL .. SWEEP_TOTAL + SWEEP2_TOTAL - 1.
+SWEEP2_WARM = [None, ("kfoo", "unit"), ("foo*s", "unit"), ("", "cancel")]
+SWEEP2_PROBE = [("foo", "unit"), ("kfoo", "unit"), ("foo*s", "unit"), ("Mfoo", "unit"), ("foo", "to"), ("", "mul01"), ("", "eqnew"),
+                ("", "cancel")]
+SWEEP2_TOTAL = len(SWEEP2_WARM) ** 2 * len(SWEEP_EDITS) ** 2 * len(SWEEP2_PROBE)
+SWEEP_ALL = SWEEP_TOTAL + SWEEP2_TOTAL
+
+
+def _sweep_warm(ops, w):
+    """Append the warm-up `w`; returns the number of heap slots it added."""
+    if w is None:
+        return 0
+    if w[1] == "cancel":
+        ops.append({"k": "quantity", "node": 1, "h": 0, "v": 2.0, "s": "kfoo", "route": "ctor", "store": True})
+        ops.append({"k": "quantity", "node": 1, "h": 0, "v": 4.0, "s": "m**-1", "route": "ctor", "store": True})
+        n = sum(1 for o in ops if o.get("store"))
+        ops.append({"k": "binop", "f": "mul", "x": n - 2, "y": n - 1, "store": False})
+        return 2
+    ops.append({"k": w[1], "node": 1, "h": 0, "s": w[0], "v": 1.0, "route": "ctor", "store": False})
+    return 0
+
+
+def sweep2_case(index):
+    i = index % SWEEP2_TOTAL
+    i, pr = divmod(i, len(SWEEP2_PROBE))
+    i, e2 = divmod(i, len(SWEEP_EDITS))
+    i, w2 = divmod(i, len(SWEEP2_WARM))
+    i, e1 = divmod(i, len(SWEEP_EDITS))
+    w1 = i % len(SWEEP2_WARM)
+    ops = [{"k": "new_node", "route": "plain"},
+           {"k": "add", "node": 1, "h": 0, "sym": "foo", "scale": 2.0, "dims": "length", "prefixable": True},
+           {"k": "quantity", "node": 1, "h": 0, "v": 2.0, "s": "foo", "route": "ctor", "store": True},
+           {"k": "quantity", "node": 1, "h": 0, "v": 9.0, "s": "foo**2", "route": "ctor", "store": True}]
+    _sweep_warm(ops, SWEEP2_WARM[w1])
+    for e in SWEEP_EDITS[e1]:
+        ops.append(dict(e, node=1, h=0))
+    _sweep_warm(ops, SWEEP2_WARM[w2])
+    for e in SWEEP_EDITS[e2]:
+        # the second edit uses other numbers than the first, so that "the first edit's value survived" shows
+        e = dict(e, node=1, h=0)
+        if "value" in e:
+            e["value"] = e["value"] + 8.0
+        if "scale" in e:
+            e["scale"] = e["scale"] + 8.0
+        if "v" in e:
+            e["v"] = e["v"] + 8.0
+        ops.append(e)
+    s_, r_ = SWEEP2_PROBE[pr]
+    n0 = sum(1 for o in ops if o.get("store"))
+    if r_ == "to":
+        ops.append({"k": "to", "x": 0, "s": s_, "how": "to", "store": False})
+    elif r_ == "sqrt1":
+        ops.append({"k": "unop", "f": "sqrt", "x": 1, "p": 2, "store": False})
+    elif r_ == "mul01":
+        ops.append({"k": "binop", "f": "mul", "x": 0, "y": 1, "store": False})
+    elif r_ == "cancel":
+        ops.append({"k": "quantity", "node": 1, "h": 0, "v": 2.0, "s": "kfoo", "route": "ctor", "store": True})
+        ops.append({"k": "quantity", "node": 1, "h": 0, "v": 4.0, "s": "m**-1", "route": "ctor", "store": True})
+        ops.append({"k": "binop", "f": "mul", "x": n0, "y": n0 + 1, "store": False})
+    elif r_ == "eqnew":
+        ops.append({"k": "quantity", "node": 1, "h": 0, "v": 2.0, "s": "foo", "route": "ctor", "store": True})
+        ops.append({"k": "binop", "f": "eq", "x": 0, "y": n0, "store": False})
+    else:
+        ops.append({"k": "unit", "node": 1, "h": 0, "s": s_, "store": False})
+    cfg = {"profile": "C12", "lru": 128, "syms": ["foo", "kfoo", "Mfoo"], "defsyms": ["m"], "dims": ["length"],
+           "routes": ["plain"], "n_steps": len(ops), "p_store": 0.0, "p_custom": 1.0, "max_nodes": 2, "w_namespace": 0,
+           "end_probe": True, "sweep": True}
+    return ops, cfg
+
+
 def simulate(chan, spec):
     """Entry point of a run child.  spec: {prop, seed, run, ops?, cfg?, sweep?}"""
     prop = spec["prop"]
     rng = make_rng(spec["seed"], prop, spec["run"])
     if spec.get("sweep") is not None and spec.get("ops") is None:
-        ops_s, cfg_s = sweep_case(spec["sweep"])
+        ops_s, cfg_s = sweep_case(spec["sweep"]) if spec["sweep"] < SWEEP_TOTAL else sweep2_case(spec["sweep"] - SWEEP_TOTAL)
         spec = dict(spec, ops=ops_s, cfg=cfg_s)
     cfg = spec.get("cfg") or make_config(rng, prop)
     sim = Sim(chan, cfg, prop)
